@@ -571,3 +571,28 @@ func wireAnte(p *Prog, r *Report, clause string) {
 			"registered in "+strings.Join(names, ","), "RegisterMsgServer is called from: "+strings.Join(names, ", "))
 	}
 }
+
+// wireKeyOwnership: the store key `name` is created and handed to its own module's keeper constructor only. A second keeper (or
+// a second module) over the same store can write the module's entries behind its handlers, and exports/imports them a second time.
+func wireKeyOwnership(p *Prog, r *Report, w *Wire, clause, name string, allowedCallees []string, what string) {
+	kp := func(rule, rest string) string { return rule + ":" + clause + ":" + rest }
+	r.Check(has(w.StoreKeys, name), kp("WIRE", "store:"+name+"#created"), "the module's store key is created by GenerateKeys", p.Pos(w.StoreKeyPos),
+		fmt.Sprintf("%q ∈ NewKVStoreKeys(%d names)", name, len(w.StoreKeys)), fmt.Sprintf("%q is not passed to sdk.NewKVStoreKeys: the store is never mounted", name))
+	n := 0
+	for _, ku := range w.KeyUses {
+		if ku.Map != "keys" || ku.Name != name {
+			continue
+		}
+		n++
+		ok := false
+		for _, a := range allowedCallees {
+			if strings.HasSuffix(ku.Callee, a) {
+				ok = true
+			}
+		}
+		r.Check(ok, kp("WIRE", "store:"+name+"→"+ku.Callee), "the store key is handed only to its own module's keeper constructor", p.Pos(ku.Pos),
+			fmt.Sprintf("keys[%q] is argument %d of %s", name, ku.Arg, ku.Callee),
+			fmt.Sprintf("keys[%q] is also given to %s: a second keeper over the same store can write %s behind the module's handlers, and a second module exports and imports the same entries", name, ku.Callee, what))
+	}
+	r.Floor("uses-of-keys["+name+"]", n, 1)
+}
